@@ -1057,17 +1057,26 @@ class ParallelFilter(FilterList):
     return reduce(operator.add, (filt(arg0, *args[1:], **kwargs)
                                  for filt in self.callables))
 
+  def _summands(self):
+    """
+    Items to be added: a nested CascadeFilter/ParallelFilter is replaced by
+    its equivalent ZFilter, as adding lists would concatenate them instead.
+    """
+    return [ZFilter(filt.numpoly, filt.denpoly)
+            if isinstance(filt, FilterList) else filt for filt in self]
+
   @property
   def numpoly(self):
     if not self.is_linear():
       raise AttributeError("Non-linear filter")
-    return reduce(operator.add, self).numpoly
+    return reduce(operator.add, self._summands()).numpoly
 
   @property
   def denpoly(self):
     if not self.is_linear():
       raise AttributeError("Non-linear filter")
-    return reduce(operator.add, self).denpoly # Consistent with numpoly
+    # Consistent with numpoly
+    return reduce(operator.add, self._summands()).denpoly
 
   @elementwise("freq", 1)
   def freq_response(self, freq):
